@@ -30,6 +30,7 @@ def quietTxB (s : App) (incs : List (Signer × Nat)) (tx : Tx) : Bool :=
       (!s.updated.contains op && !s.index.contains (p / PR, op))
   | _, [.create _] => true
   | _, [.rmPending _] => true
+  | _, [.params _] => true
   | _, _ => false
 
 def quietTxsB : List Tx → App → List (Signer × Nat) → Bool
